@@ -257,7 +257,7 @@ def split_trace(trace_path, d, tag, parts):
     cur = None
     with open(trace_path) as f:
         for line in f:
-            if '"e":"Reset"' in line:
+            if '"e":"Reset"' in line or '"e": "Reset"' in line:
                 cur = []
                 runs.append(cur)
             if cur is None:
@@ -329,21 +329,30 @@ def trace_conform(d, name, consts, trace_path):
     mod = "Conf_" + name
     write_wrapper(os.path.join(d, mod + ".tla"), mod, "TraceConf", consts)
     write_cfg(os.path.join(d, mod + ".cfg"), consts)
-    env = {"TRACE": trace_path, "JAVA_TOOL_OPTIONS": "-Dtlc2.tool.queue.IStateQueue=StateDeque"}
-    cmd = ["java", "-XX:+UseParallelGC", "-Xmx4g", "-Xss1g",
-           "-cp", "/opt/veriftools/tla/tla2tools.jar:/opt/veriftools/tla/CommunityModules-deps.jar",
-           "tlc2.TLC", "-workers", "1", "-metadir", os.path.join(d, "meta_" + mod), "-noGenerateSpecTE",
-           "-config", mod + ".cfg", mod + ".tla"]
-    p = run(cmd, cwd=d, env=env, timeout=1800, check=False)
-    out = p.stdout or ""
-    if "CONFDONE" not in out:
-        open(os.path.join(d, mod + ".out"), "w").write(out)
-        raise ToolError("TraceConf did not complete for %s (see %s.out)" % (name, mod))
+    files, nruns, nev = split_trace(trace_path, d, "conf_" + name, NCPU if os.path.getsize(trace_path) > 4_000_000 else 1)
+
+    def one(path):
+        env = {"TRACE": path, "JAVA_TOOL_OPTIONS": "-Dtlc2.tool.queue.IStateQueue=StateDeque"}
+        cmd = ["java", "-XX:+UseParallelGC", "-Xmx3g", "-Xss1g",
+               "-cp", "/opt/veriftools/tla/tla2tools.jar:/opt/veriftools/tla/CommunityModules-deps.jar",
+               "tlc2.TLC", "-workers", "1", "-metadir", path + ".cmeta", "-noGenerateSpecTE",
+               "-config", mod + ".cfg", mod + ".tla"]
+        p = run(cmd, cwd=d, env=env, timeout=3600, check=False)
+        out = p.stdout or ""
+        shutil.rmtree(path + ".cmeta", ignore_errors=True)
+        if "CONFDONE" not in out:
+            open(os.path.join(d, mod + ".out"), "w").write(out)
+            raise ToolError("TraceConf did not complete for %s (see %s.out)" % (name, mod))
+        res = []
+        for line in out.splitlines():
+            m = CONF_RE.match(line.strip())
+            if m:
+                res.append((int(m.group(1)), m.group(3).replace('\\"', '"')[:700]))
+        return res
     drifts = []
-    for line in out.splitlines():
-        m = CONF_RE.match(line.strip())
-        if m:
-            drifts.append((int(m.group(1)), m.group(3).replace('\\"', '"')[:700]))
+    with cf.ThreadPoolExecutor(max_workers=min(NCPU, max(1, len(files)))) as ex:
+        for r in ex.map(one, files):
+            drifts += r
     return drifts
 
 
